@@ -19,12 +19,30 @@
 (*   fraction and the difference is rounded to the NEAREST second; TLC     *)
 (*   refutes it with StepsHonoured / NoOvershoot for requests less than    *)
 (*   half a second short of a multiple of the step.                        *)
-(* The properties are those of Durations.tla, read in ticks.               *)
+(* The properties are those of Durations.tla, read in ticks, plus          *)
+(* TableIsStartPlusKDt for the table of epochs the clock pre-populates     *)
+(* for a configured span that is not a whole multiple of the step (named   *)
+(* deviation SpreadEpochsOverSpan).                                        *)
 (***************************************************************************)
 EXTENDS Durations
 
 CONSTANTS Tick,                 \* ticks per second
-          TargetKeepsFraction   \* FALSE = as designed
+          TargetKeepsFraction,  \* FALSE = as designed
+          SpanRems,             \* the configured span is 4*dt + r ticks, r \in SpanRems (r < dt)
+          SpreadEpochsOverSpan  \* FALSE = as designed
+
+\* The clock of the scenario (ScenarioClock.__init__) pre-populates the table of epochs for the
+\* configured time span (stop - start), which need NOT be a whole multiple of the step: as DESIGNED
+\* the rows are start + j*dt for j = 0..floor(span/dt).  Every later step adds its epoch if missing
+\* (Scenario.saveDatabaseOutput).  Named deviation SpreadEpochsOverSpan = TRUE spreads the same
+\* number of rows evenly over the span (end point pinned to the span), refuted by TableIsStartPlusKDt.
+VARIABLES span, table
+fvars == <<vars, span, table>>
+RemTicks(r, step) == CASE r = "zero" -> 0 [] r = "s1" -> Tick [] r = "m1" -> step - Tick
+                       [] r = "frac" -> step \div 6 + Tick \div 2
+Prepopulated(sp, step) ==
+  LET n == sp \div step
+  IN IF SpreadEpochsOverSpan THEN {(j * sp) \div n : j \in 0..n} ELSE {j * step : j \in 0..n}
 
 ASSUME \A s \in Dts : s % Tick = 0           \* steps are whole seconds
 
@@ -38,10 +56,20 @@ FracBegin(D) ==
   /\ k0' = k /\ reqs' = Append(reqs, D) /\ pc' = "running"
   /\ UNCHANGED <<startSec, dt, clockSec, k, calls, counts, epochs>>
 
-FracNext == \/ PoseStart \/ PoseDt
-            \/ \E D \in Requests(dt) : FracBegin(D)
-            \/ StepForward \/ PropagateToEnd
-FracSpec == Init /\ [][FracNext]_vars
+\* ScenarioBuilder: the step and the time span are configured, the clock fills the table
+FracPoseDt == /\ PoseDt
+              /\ \E r \in SpanRems : /\ span' = 4 * dt' + RemTicks(r, dt')
+                                     /\ table' = Prepopulated(4 * dt' + RemTicks(r, dt'), dt')
+FracStep   == StepForward /\ table' = table \cup {clockSec'} /\ UNCHANGED span
+FracNext == \/ (PoseStart /\ UNCHANGED <<span, table>>) \/ FracPoseDt
+            \/ (\E D \in Requests(dt) : FracBegin(D)) /\ UNCHANGED <<span, table>>
+            \/ FracStep \/ (PropagateToEnd /\ UNCHANGED <<span, table>>)
+FracSpec == Init /\ span = 0 /\ table = {} /\ [][FracNext]_fvars
+
+\* C05: every recorded epoch is start + j*dt: the pre-populated ones for j = 0..floor(span/dt) and
+\* exactly those of the steps taken afterwards
+Max2(a, b) == IF a > b THEN a ELSE b
+TableIsStartPlusKDt == pc \in {"idle", "running"} => table = {j * dt : j \in 0..Max2(span \div dt, k)}
 
 \* as designed, FracBegin is PropagateToBegin of Durations.tla (checked by TLC on every idle state)
 SameAsDurations ==
@@ -49,5 +77,5 @@ SameAsDurations ==
 
 FracEmit == (pc = "idle" /\ calls > 0 /\ Selected) =>
    PrintT("DUR " \o ToJson([startSec |-> startSec, dt |-> dt, reqs |-> reqs, counts |-> counts,
-                            epochs |-> epochs, tick |-> Tick]))
+                            epochs |-> epochs, tick |-> Tick, span |-> span]))
 =============================================================================
